@@ -105,6 +105,12 @@ impl BlockCache {
 		}
 	}
 
+	/// Drops every cached block and value. The keys are table ids / value-log file ids,
+	/// which are only unique within one timeline of the store: a restore rewinds them.
+	pub(crate) fn clear(&self) {
+		self.data.clear();
+	}
+
 	/// Inserts a data block into the cache.
 	pub(crate) fn insert_data_block(&self, table_id: u64, offset: u64, block: Arc<Block>) {
 		self.data.insert((KIND_DATA, table_id, offset).into(), Item::Data(block));
